@@ -518,7 +518,10 @@ pub fn eval_checked(opi: usize, args: &[u64], l: &mut Local) -> Result<Option<u6
         }
     }
     match r {
-        Ok(v) => Ok(Some(v)),
+        Ok(v) => {
+            l.sample(|| json!({"op": op.name, "args": args.iter().map(|a| hex(*a)).collect::<Vec<_>>(), "result_word": hex(v)}));
+            Ok(Some(v))
+        }
         Err(m) => {
             if is_stub_panic(&m) {
                 if stub_excused(&op.name, args) {
